@@ -60,7 +60,8 @@ def gen_specs(run):
     confs = [(b, m, T, None) for (b, m, T) in confs] + [(b, m, T, True) for (b, m, T) in forced]
     for sid, (b, m, T, force) in enumerate(confs):
         seeded = force if force is not None else (m == 1 and sid % 2 == 1)
-        base = gen.mk_member(rng, b, m, cap=m, T=T, seed=seeded, rngspec={"kind": "chacha", "seed": 2 * sid})
+        # parameter objects with spare capacity too: nothing about a nonce may depend on the capacity of the parameter object
+        base = gen.mk_member(rng, b, m, cap=m * ([1, 2, 4, 8][sid % 4] if b * m * 8 <= 128 else [1, 2][sid % 2]), T=T, seed=seeded, rngspec={"kind": "chacha", "seed": 2 * sid})
         other = copy.deepcopy(base)
         other["rng"] = {"kind": "chacha", "seed": 2 * sid + 1}
         again = copy.deepcopy(base)
